@@ -168,6 +168,19 @@ def aset_method(engine, st, last, args, dest_ty):
         old = sv.present[i]
         sv.present[i] = z3.BoolVal(True)
         return BV(zs(z3.Not(old)))
+    if last in ('is_subset', 'is_disjoint', 'is_superset'):
+        other = deref_all(args[1])
+        if type(other).__name__ != 'ASetV':
+            raise Inconclusive(f'HashSet::{last} with a non-symbolic set')
+        a, b = (sv, other) if last != 'is_superset' else (other, sv)
+
+        def member(s_, key):
+            # membership of `key` in s_ as a term (keys are concrete objects: structural comparison decides statically)
+            terms = [p for k, p in zip(s_.keys, s_.present) if z3.is_true(zs(value_eq(k, key)))]
+            return z3.Or(*terms) if terms else z3.BoolVal(False)
+        if last == 'is_disjoint':
+            return BV(zs(z3.And(*[z3.Not(z3.And(p, member(b, k))) for k, p in zip(a.keys, a.present)])) if a.keys else True)
+        return BV(zs(z3.And(*[z3.Implies(p, member(b, k)) for k, p in zip(a.keys, a.present)])) if a.keys else True)
     if last in ('iter', 'into_iter'):
         # iteration needs a concrete element list: split the path on every membership flag
         items = []
@@ -417,6 +430,8 @@ def dispatch(engine, st, callee, args, dest_ty):
     if r is not NotImplemented:
         return r
     segs = name.split('::')
+    if len(segs) >= 2 and segs[-2] == 'RouteState' and segs[-1] in ('get_activity_state', 'get_activity_states', 'set_activity_states'):
+        return state_accessor(engine, st, 'RouteState', None, segs[-1], args, dest_ty)
     if len(segs) >= 2:
         fns = engine.prog.find_method(segs[-2], segs[-1], trait=None)
         if len(fns) == 1:
@@ -450,6 +465,22 @@ def state_accessor(engine, st, tyb, trait, method, args, dest_ty):
     store = deref_all(args[0])
     if not isinstance(store, StateV):
         raise Inconclusive(f'{tyb} accessor on {store!r}')
+    if tyb == 'RouteState' and method in ('get_activity_state', 'get_activity_states', 'set_activity_states'):
+        # the generic per-activity store (key = a marker type): one slot in the typed store of the obligation
+        if method == 'set_activity_states':
+            v = args[1]
+            store.table['generic_activity_states'] = v if isinstance(v, VecV) else deref_all(v)
+            return UnitV()
+        engine.env.note_state_read('generic_activity_states')
+        vec = store.table.get('generic_activity_states')
+        if method == 'get_activity_states':
+            return mk_option(True, RefV(store, 'generic_activity_states'), ty=dest_ty) if vec is not None else mk_option(False, ty=dest_ty)
+        idx = args[1].concrete()
+        if idx is None:
+            raise Inconclusive('symbolic activity index in state accessor')
+        if vec is None or idx >= len(vec.items):
+            return mk_option(False, ty=dest_ty)
+        return mk_option(True, RefV(vec, idx), ty=dest_ty)
     m = re.match(r'^get_(\w+)_at$', method)
     if m and tyb == 'RouteState':
         key = m.group(1)
@@ -480,6 +511,10 @@ def state_accessor(engine, st, tyb, trait, method, args, dest_ty):
     if m:
         store.table[m.group(1)] = args[1]
         return RefV(Cell(store), 0) if tyb != 'RouteState' else UnitV()
+    m = re.match(r'^remove_(\w+)$', method)
+    if m:
+        existed = store.table.pop(m.group(1), None) is not None
+        return BV(existed)
     raise Inconclusive(f'unknown state accessor {tyb}::{method}')
 
 
